@@ -331,6 +331,11 @@ def finding_fn(a):
     if not names or names[-1] != fn: names.append(fn)
     for i, nme in enumerate(names):
         if nme.startswith(cls + '::') and '::' not in nme[len(cls) + 2:].split('(')[0]:
-            if i + 1 < len(names): return nme + '>' + names[i + 1]
+            # alternatives, '~'-separated: the entry together with each function on the way from it to the access (the same finding whether
+            # the helper is called directly, through a further helper, or itself wraps one); a listed finding names one of them
+            alts = []
+            for g in names[i + 1:]:
+                if nme + '>' + g not in alts: alts.append(nme + '>' + g)
+            if alts: return '~'.join(alts)
             break
     return fn
